@@ -81,6 +81,21 @@ static string RandomPath(Rng& r) {
   static const char* comps[] = {"a", "b", "..", ".", "", "foo", "x.y", "...", "..a", "a..", "\x01", "\xff\xfe", " ", "a b", "-", "~"};
   string p;
   if (r.below(3) == 0) p += "/";
+  if (r.below(4) == 0) {
+    // descend D levels, climb back C levels with "..", a few times: depths and climbs around the powers of two (fixed-size
+    // tables of component positions), climbs that stop short of, reach and pass the start
+    static const int marks[] = {1, 2, 3, 7, 8, 9, 31, 32, 33, 63, 64, 65, 66, 127, 128, 129, 130, 255, 256, 257};
+    int phases = 1 + r.below(3);
+    bool first = true;
+    for (int ph = 0; ph < phases; ++ph) {
+      int d = r.below(3) == 0 ? 1 + r.below(300) : marks[r.below(20)];
+      int c = r.below(4) == 0 ? r.below(d + 4) : std::max(0, d - 2 + (int)r.below(5));
+      for (int i = 0; i < d; ++i) { if (!first) p += "/"; first = false; p += "d" + std::to_string(i % 10); if (r.below(16) == 0) p += "/."; }
+      for (int i = 0; i < c; ++i) { p += "/.."; if (r.below(16) == 0) p += "/"; }
+    }
+    if (r.below(2)) p += "/x";
+    return p;
+  }
   int n = r.below(4) == 0 ? 100 + r.below(400) : 1 + r.below(12);
   for (int i = 0; i < n; ++i) {
     if (i) p += "/";
